@@ -871,3 +871,35 @@ def mode_delays_own(chk, rule):
                 chk.ob(rule, "a delay armed inside Mode.%s is the mode's own (self.delay), which Mode.stop clears" % m.name, src(c.func.value) == "self.delay", m.where(c),
                        detail="armed on %s" % src(c.func.value), construct=m.ident, text="mode delay armed on " + src(c.func.value))
     chk.ob(rule, "delays armed inside Mode examined", n >= 1, mode.where(), detail=str(n), nontrivial=False)
+
+
+def setting_value_source(chk, rule):
+    """SettingsController.get_setting_value: the stored value is used whenever the setting's machine variable *exists* (is_machine_var);
+    only a missing variable, or a stored value that is not one of the setting's legal values, yields the default.  A test on the
+    value's truthiness turns every legal falsy selection (0, False, '') into the default."""
+    f = chk.repo.func("mpf/core/settings_controller.py", "SettingsController.get_setting_value")
+    chk.analysed(f)
+    cfg = f.cfg()
+    defs = [n for n in cfg.nodes if n.kind == "stmt" and isinstance(n.ast, ast.Assign) and src(n.ast.targets[0]) == "value"]
+    dflt = [n for n in defs if src(n.ast.value).endswith(".default")]
+    stored = [n for n in defs if isinstance(n.ast.value, ast.Call) and call_attr(n.ast.value) == "get_machine_var"]
+    chk.need(stored and dflt, rule, "get_setting_value reads the stored value and knows the default", f)
+    from sa.cfg import canon_set
+    ok = True
+    why = []
+    for n in dflt:
+        g = set(canon_set(cfg.guards_at(n.id)))
+        texts = {k for k, v in g}
+        legit = any("is_machine_var" in k for k in texts) or any(" not in " in k and ".values" in k for k in texts) or any(" in " in k and ".values" in k for k in texts)
+        truthy = [k for k, v in g if k in ("value", "not value") or k.replace(" ", "") in ("valueisNone", "value==None")]
+        if not legit or truthy:
+            ok = False
+            why.append("default chosen under %s" % sorted(g))
+    for n in stored:
+        g = set(canon_set(cfg.guards_at(n.id)))
+        if not any("is_machine_var" in k for k, v in g):
+            # reading first and deciding afterwards is fine only if the decision is `is_machine_var` / membership, checked above
+            pass
+    uses_exists = any(call_attr(c) == "is_machine_var" for c in f.calls())
+    chk.ob(rule, "a setting's stored value is used whenever its machine variable exists; the default only for a missing variable or an illegal stored value",
+           ok and uses_exists, f.where(), detail="; ".join(why) or ("is_machine_var consulted: %s" % uses_exists), construct=f.ident, text="setting value source")
